@@ -121,6 +121,19 @@ func vfRunC12(c vfC12Case) *kit.Result {
 			}
 		}
 	}
+	// 2b. a camera reset restarts detection whatever the sinks return: the first frame after it is never motion
+	afterReset := false
+	for i, e := range c.Rec.Ev {
+		switch e.K {
+		case vfEvReset:
+			afterReset = true
+		case vfEvFrame:
+			if afterReset && tr.motion[i] {
+				return fail("the first frame after the camera reset (event %d) was reported as motion: detection was not restarted", i)
+			}
+			afterReset = false
+		}
+	}
 	a := vfAnalyse(c.Rec, run)
 	// 3. even with failing writes a recording never runs past its limit (the limit counts frames, not successes)
 	for k, rec := range recsM {
